@@ -6,6 +6,61 @@ HERE = os.path.dirname(os.path.dirname(os.path.abspath(__file__)))
 ALL = ["C%02d" % i for i in range(1, 21)]
 
 CHECKS = {
+ "C08": dict(
+    category="model_checking", design_ref="DESIGN.md 5/C08",
+    text="spec/LZ.tla: token model, encoder and the LZ10/LZ11 decoder as a TLA+ state machine (one step per header / flag byte / token) with terminal classes done / err / open. TLC checks exhaustively at scaled constants that decode(encode(ts)) = expand(ts) for every token sequence, that the closed-form overlapping copy equals the byte-wise one, and that done and err are exclusive. The real LZ10 compressor's output for all inputs over small alphabets up to a length bound plus structured large inputs is the trace: TLC runs the decoder machine at the real constants over those bytes and must reach done with out = input, legal lengths/displacements and nothing left over; the library's own round trip is checked too.",
+    note="Exhaustive over {a,b} up to length 10/13 and {a,b,c} up to 6/8; structured inputs up to ~20 KB quick / 64 KB thorough (the 16 MiB bound of the statement is not reached: the match search is quadratic). Scaled model W=6.",
+    technique="TLA+ decoder state machine + TLC exhaustive at scaled constants; impl->spec validation of real compressor output by the TLA+ decoder"),
+ "C09": dict(
+    category="model_checking", design_ref="DESIGN.md 5/C09",
+    text="Same specification with the LZ11 constants (three reference forms) and the 0x13 wrapper: TLC validates every stream the real LZ13 compressor produced (exhaustive small alphabets, inputs forcing each length form, window-edge displacements) and, in a supervised worker under both arithmetic profiles, that compress returns Ok or Err for every input including the empty one.",
+    note="As C08; wrapper bytes 1..3 are unconstrained (the statement does not define them). Totality is observed on the explored inputs.",
+    technique="TLA+ decoder state machine + TLC; impl->spec validation of real compressor output; isolated execution under two profiles"),
+ "C10": dict(
+    category="model_checking", design_ref="DESIGN.md 5/C10",
+    text="LZ!SizeBound and LZ!PeriodBound are the statement's formulas. TLC checks exhaustively that the greedy longest-match tokeniser model (displacement >= 2) meets both bounds at scaled constants for all inputs and all periods (and that weakened tokenisers violate them: vacuity guard); the real compressors' output sizes for periodic inputs (quick: ~60 periods incl. the window edge; thorough: all periods 1..4096 x 2 lengths x 2 pattern families x both formats) and for every C08/C09 input are evaluated against the bounds by TLC.",
+    note="Effectiveness bound: 2 total lengths and 2 pattern families per period. Release profile only (sizes do not depend on overflow checks).",
+    technique="TLA+ bound formulas + scaled greedy model checked by TLC; impl->spec size events validated by TLC"),
+ "C11": dict(
+    category="model_checking", design_ref="DESIGN.md 5/C11",
+    text="TLC enumerates token sequences at the real encodings (boundary lengths of every LZ11 form, displacement 1, overlapping copies, window edge via literal-run macros), encodes them in TLA+ and derives the expected expansion with the decoder machine; malformed families (empty, short header, unknown type, every cutting truncation, reference before the start at every position) are classified err by the spec. All streams go through LZ10 / LZ13 / CompressionFormat::decompress (wrapped, bare LZ10, bare LZ11, stored forms) in a supervised worker under both profiles; random corruptions are re-classified by TLC.",
+    note="Open outcomes (only no-panic demanded): trailing bytes, a final reference overshooting the declared length, the LZ11 32-bit extended length header.",
+    technique="TLA+ encoder/decoder + TLC-generated streams; spec->impl replay in isolation under two profiles; impl->spec validation of random corruptions"),
+ "C12": dict(
+    category="model_checking", design_ref="DESIGN.md 5/C12",
+    text="spec/LayeredFS.tla: layers as trees, every filesystem operation as an outcome-set function, per-game configuration; TLC checks lower-layers-immutable, write-touches-only-target, read-after-write, topmost-file and query agreement on a bounded model; every generated transition is materialised as real directories and replayed through LayeredFilesystem, comparing the result and a walk of every layer; random histories on random trees are validated by TLC. Compressed targets: the on-disk bytes are validated by the TLA+ LZ decoder. Typed helpers are checked as byte-level operation composed with the observed codec.",
+    note="Plain tree semantics of the OS filesystem assumed (no symlinks, permissions, case folding, concurrent modification); error kinds compared as classes.",
+    technique="TLA+ state machine + TLC; spec->impl transition replay on real directories; impl->spec trace validation"),
+ "C13": dict(
+    category="model_checking", design_ref="DESIGN.md 5/C13",
+    text="Listing semantics in the same module (sorted bytewise, duplicate-free union over layers, closed glob family with structural matchers, sub-directories); TLC checks sortedness, no duplicates, soundness/completeness against the trees and localized = unlocalized-of-localized; listing operations are issued after every mutation in the replayed transitions and recorded histories.",
+    note="Patterns from a closed family; names restricted to plain components (no hidden files / glob metacharacters).",
+    technique="TLA+ listing semantics + TLC; spec->impl replay; impl->spec trace validation"),
+ "C14": dict(
+    category="model_checking", design_ref="DESIGN.md 5/C14",
+    text="spec/Localize.tla: marker table and split rule from the statement; TLC checks for all 6 localizers x 8 languages x paths in scope that results are directory ++ marker ++ final component and errors exactly on unsupported pairs / final-less paths; ~3k cases replayed string-for-string against PathLocalizer::localize; the same-mapping clause rides on the localized transitions of the filesystem model.",
+    note="Exhaustive over the game x language table; paths of depth 1-4 over a small component alphabet plus degenerate paths.",
+    technique="TLA+ table/function spec + TLC exhaustive; spec->impl replay; filesystem traces for the same-mapping clause"),
+ "C15": dict(
+    category="model_checking", design_ref="DESIGN.md 5/C15",
+    text="spec/Fe9Pack.tla: CanonPack, PackLayouts (names and bodies anywhere, any order, gaps), WellFormedPack and a total reference parser; TLC checks parse(layout) = value for every layout and the alignment/exactness laws of the canonical image; fe9_arc::serialize is compared byte-exact with CanonPack and fe9_arc::parse is fed every layout; random maps recorded from mila are validated by TLC.",
+    note="0..3 files in the enumeration, random maps up to 300 files; one 65 535-file case in thorough.",
+    technique="TLA+ format spec + TLC; spec->impl layout replay; impl->spec image validation"),
+ "C16": dict(
+    category="model_checking", design_ref="DESIGN.md 5/C16",
+    text="spec/Arc3ds.tla: arc layouts as archive contents (padded/unpadded, record permutations, body placements) and error layouts; TLC checks expected extraction = value and error classification; images are fed to arc::from_bytes; random arcs and the repository's ArcTest.arc are validated by TLC.",
+    note="No arc writer exists in mila: images come from the specification (via the canonical bin image) or are built by the harness from TLC-validated layout descriptions.",
+    technique="TLA+ layout spec + TLC; spec->impl replay; impl->spec validation"),
+ "C17": dict(
+    category="model_checking", design_ref="DESIGN.md 5/C17",
+    text="spec/ASet.tla: value <-> archive content (flag words, omitted groups, 257-entry clip table) with reference reader; TLC checks round trip, SetSize and idempotence on the enumerated group patterns; ASetFile::serialize is compared with the specification image, parsed back and re-serialized; random values and the repository file are validated by TLC.",
+    note="Group patterns from a curated family (empty, bit 0, bit 31, both, alternating, full) over 2 groups + each single group position; random 256-bit masks beyond.",
+    technique="TLA+ format spec + TLC; spec->impl image/round-trip replay; impl->spec validation"),
+ "C18": dict(
+    category="model_checking", design_ref="DESIGN.md 5/C18",
+    text="spec/AssetBinary.tla: one 51-row field table drives flags, record form, record size, content and reference reader; TLC checks round trip, extended <=> 8 flag bytes and record size on all-absent, all-present, every single bit, every pair of bits and every bit removed from all-present; AssetBinary::serialize is compared with the specification image, parsed back and re-serialized; random flag sets and the repository file are validated by TLC.",
+    note="2^51 presence patterns are not exhausted: single / pair / complement coverage plus random. Values of absent fields are don't-care.",
+    technique="TLA+ table-driven format spec + TLC; spec->impl replay; impl->spec validation"),
  "C19": dict(
     category="model_checking", design_ref="DESIGN.md 5/C19",
     text="The published pixel-format rules are transcribed into TLA+ (spec/Pixel.tla, spec/Etc1.tla: Morton tile order, per-format channel extraction with the statement's one-quantisation-step tolerance, ETC1/ETC1A4 block rules, RGB5A3, CI8 8x4 blocks with crop). TLC checks the index maps are bijections and the bit-field/arithmetics laws, generates payloads with the allowed output interval per byte (replayed through ctpk::read / mila::decode / Tpl::extract_textures / ColorFormat::decode under both arithmetic profiles) and checks every texel of images recorded from mila (all 65 536 values of each 16-bit format, random payloads, all sizes).",
@@ -17,7 +72,7 @@ CHECKS = {
     note="0-6 textures, curated placements (3 per container quick, 122 thorough); panic-freedom on prefixes is observed, not proved. No container writer exists in mila, so the recorded direction re-checks reader outputs of generated files.",
     technique="TLA+ layout spec + TLC; spec->impl replay of files, all prefixes and damaged magics in isolation; impl->spec validation of reader output"),
  "C05": dict(
-    category="model_checking", design_ref="DESIGN.md 5/C05",
+    category="exploration", design_ref="DESIGN.md 5/C05",
     text="spec/Parsers.tla defines, for every entry point that parses untrusted bytes, the legal outcomes (ok/err only, largest single allocation request <= 512*len+64KiB, accepted input re-serializable without panic), the must-reject predicates computed from the raw bytes in overflow-free arithmetic, and the boundary mutations of conforming base images (every header/table field x boundary values, all truncations). Inputs generated that way plus seeded random buffers/mutations are run through all 10 entry points in a supervised worker under both arithmetic profiles; TLC decides every observed outcome.",
     note="Freedom from panic/abort/overflow/hang/over-allocation is observed on the generated inputs (tens of thousands per run), not proved; the spec contributes legality, must-reject and boundary-value generation. Tracking allocator in the harness; single requests > 1 GiB are refused (abort observed by the supervisor).",
     technique="TLA+ outcome model + TLC-generated boundary mutations; isolated execution under two build profiles; TLC validation of outcomes"),
